@@ -549,12 +549,21 @@ namespace bloch::update {
                                                  const std::string& assetName) {
             std::istringstream in(content);
             std::string line;
+            // Lines have the sha256sum shape "<hash>  <file>" (the file may carry a '*' binary
+            // marker or a directory prefix). The entry must be the one listed for exactly this
+            // asset: a substring test would also match "<asset>.sig" or "old-<asset>".
             while (std::getline(in, line)) {
-                if (line.find(assetName) == std::string::npos)
-                    continue;
                 std::istringstream parts(line);
                 std::string hash;
-                if (parts >> hash)
+                std::string file;
+                if (!(parts >> hash >> file))
+                    continue;
+                if (!file.empty() && file.front() == '*')
+                    file.erase(file.begin());
+                auto slash = file.find_last_of('/');
+                if (slash != std::string::npos)
+                    file = file.substr(slash + 1);
+                if (file == assetName)
                     return hash;
             }
             return std::nullopt;
